@@ -60,20 +60,18 @@ Definition simple_pattern (p : pattern) : bool :=
 Definition simple_attribute (a : attribute) : bool :=
   wf_identifier (attr_id a) && simple_pattern (attr_value a).
 
-(* a comment line: no CR LF; its first byte starts a character; if it is not empty it is not made of spaces
-   only (the serializer writes a whitespace-only line as an empty one: C04 compares those as equal) *)
-Definition simple_comment_line (l : bytes) : bool :=
-  wf_comment_line l && starts_char l &&
-  match l with [] => true | _ => existsb (fun b => negb (N.eqb b 32)) l end.
+(* a comment line: no CR LF; its first byte starts a character *)
+Definition simple_comment_line (l : bytes) : bool := wf_comment_line l && starts_char l.
 
-(* a comment: at least one line, the last line not empty (D7: an empty last line is lost at the end of the input) *)
+(* a comment: at least one line; the last line contains a byte other than a space (D7: an empty last line is
+   lost at the end of the input; the serializer writes a whitespace-only line as an empty one) *)
 Definition simple_comment (c : comment) : bool :=
   match content c with
   | [] => false
-  | ls => forallb simple_comment_line ls && match last ls [] with [] => false | _ => true end
+  | ls => forallb simple_comment_line ls && existsb (fun b => negb (N.eqb b 32)) (last ls [])
   end.
 
-Definition simple_entry (e : entry) : bool :=
+Definition plain_entry (e : entry) : bool :=
   match e with
   | CommentEntry c | GroupComment c | ResourceComment c => simple_comment c
   | Message id (Some p) attrs None =>
@@ -83,6 +81,18 @@ Definition simple_entry (e : entry) : bool :=
   | Term id p attrs None => wf_identifier id && simple_pattern p && forallb simple_attribute attrs
   | _ => false
   end.
+
+(* an entry with or without an attached comment *)
+Definition entry_comment (e : entry) : option comment :=
+  match e with Message _ _ _ c | Term _ _ _ c => c | _ => None end.
+Definition strip_comment (e : entry) : entry :=
+  match e with
+  | Message id v a _ => Message id v a None
+  | Term id v a _ => Term id v a None
+  | _ => e
+  end.
+Definition simple_entry (e : entry) : bool :=
+  plain_entry (strip_comment e) && match entry_comment e with Some c => simple_comment c | None => true end.
 
 Definition simple_resource (t : resource) : bool := forallb simple_entry t.
 
@@ -121,19 +131,27 @@ Inductive comment_layout (P : bytes) : list bytes -> bytes -> Prop :=
 | cl_one l : comment_layout P [l] (P ++ sl l)
 | cl_more l x r C : is_eol_bytes x -> r <> [] -> comment_layout P r C -> comment_layout P (l :: r) (P ++ sl l ++ x ++ C).
 
-Inductive entry_layout : entry -> bytes -> Prop :=
-| el_comment ls C : comment_layout [35%N] ls C -> entry_layout (CommentEntry (Comment ls)) C
-| el_gcomment ls C : comment_layout [35; 35]%N ls C -> entry_layout (GroupComment (Comment ls)) C
-| el_rcomment ls C : comment_layout [35; 35; 35]%N ls C -> entry_layout (ResourceComment (Comment ls)) C
+Inductive plain_layout : entry -> bytes -> Prop :=
+| el_comment ls C : comment_layout [35%N] ls C -> plain_layout (CommentEntry (Comment ls)) C
+| el_gcomment ls C : comment_layout [35; 35]%N ls C -> plain_layout (GroupComment (Comment ls)) C
+| el_rcomment ls C : comment_layout [35; 35; 35]%N ls C -> plain_layout (ResourceComment (Comment ls)) C
 | el_message id els attrs k V A :
     value_layout els V -> attrs_layout attrs A ->
-    entry_layout (Message id (Some (Pattern els)) attrs None) (id ++ sp k ++ 61%N :: V ++ A)
+    plain_layout (Message id (Some (Pattern els)) attrs None) (id ++ sp k ++ 61%N :: V ++ A)
 | el_message_novalue id attrs k A :
     attrs <> [] -> attrs_layout attrs A ->
-    entry_layout (Message id None attrs None) (id ++ sp k ++ 61%N :: A)
+    plain_layout (Message id None attrs None) (id ++ sp k ++ 61%N :: A)
 | el_term id els attrs k V A :
     value_layout els V -> attrs_layout attrs A ->
-    entry_layout (Term id (Pattern els) attrs None) (45%N :: id ++ sp k ++ 61%N :: V ++ A).
+    plain_layout (Term id (Pattern els) attrs None) (45%N :: id ++ sp k ++ 61%N :: V ++ A).
+
+(* an entry: as above, or its comment, one line end, and the entry *)
+Inductive entry_layout : entry -> bytes -> Prop :=
+| el_plain e E : entry_comment e = None -> plain_layout e E -> entry_layout e E
+| el_attached e ls C x E :
+    is_message_or_term e = true -> entry_comment e = None ->
+    comment_layout [35%N] ls C -> is_eol_bytes x -> plain_layout e E ->
+    entry_layout (attach e (Comment ls)) (C ++ x ++ E).
 
 (* what follows an entry: nothing, or a line end, blank lines and the remaining entries *)
 Inductive entries_layout : list entry -> bytes -> Prop :=
@@ -370,11 +388,11 @@ Qed.
 Lemma simple_comment_ne c : simple_comment c = true -> content c <> [].
 Proof. unfold simple_comment. destruct (content c); [discriminate | discriminate]. Qed.
 
-Lemma render_entry_layout e cs : simple_entry e = true ->
-  exists E cs', render_entry e cs = (E, cs') /\ entry_layout e E.
+Lemma render_plain_layout e cs : plain_entry e = true ->
+  exists E cs', render_entry e cs = (E, cs') /\ plain_layout e E.
 Proof.
   intros He. destruct e as [id [p|] attrs [|]|id p attrs [|]|[ls]|[ls]|[ls]|]; try discriminate.
-  - cbn [simple_entry] in He. apply andb_prop in He as [He Hattrs]. apply andb_prop in He as [_ Hp].
+  - cbn [plain_entry] in He. apply andb_prop in He as [He Hattrs]. apply andb_prop in He as [_ Hp].
     destruct (simple_pattern_spec p Hp) as [els [-> Hv]].
     cbn [render_entry render_opt_comment]. rewrite rbind_rret.
     destruct (blank_inline_opt_spec cs) as [k [cs1 E1]]. rewrite (rbind_eq _ _ _ _ _ E1).
@@ -383,14 +401,14 @@ Proof.
     destruct (render_attributes_layout attrs cs2 Hattrs) as [A [cs3 [E3 HA]]]. rewrite (rbind_eq _ _ _ _ _ E3).
     eexists. exists cs3. split; [reflexivity|].
     unfold cat. cbn [concat app]. rewrite !app_nil_r. apply el_message; assumption.
-  - cbn [simple_entry] in He. apply andb_prop in He as [He Hattrs]. apply andb_prop in He as [_ Hne].
+  - cbn [plain_entry] in He. apply andb_prop in He as [He Hattrs]. apply andb_prop in He as [_ Hne].
     cbn [render_entry render_opt_comment]. rewrite rbind_rret.
     destruct (blank_inline_opt_spec cs) as [k [cs1 E1]]. rewrite (rbind_eq _ _ _ _ _ E1). rewrite rbind_rret.
     destruct (render_attributes_layout attrs cs1 Hattrs) as [A [cs3 [E3 HA]]]. rewrite (rbind_eq _ _ _ _ _ E3).
     eexists. exists cs3. split; [reflexivity|].
     unfold cat. cbn [concat app]. rewrite !app_nil_r. apply el_message_novalue; [|exact HA].
     destruct attrs; [discriminate Hne | discriminate].
-  - cbn [simple_entry] in He. apply andb_prop in He as [He Hattrs]. apply andb_prop in He as [_ Hp].
+  - cbn [plain_entry] in He. apply andb_prop in He as [He Hattrs]. apply andb_prop in He as [_ Hp].
     destruct (simple_pattern_spec p Hp) as [els [-> Hv]].
     cbn [render_entry render_opt_comment]. rewrite rbind_rret.
     destruct (blank_inline_opt_spec cs) as [k [cs1 E1]]. rewrite (rbind_eq _ _ _ _ _ E1).
@@ -399,15 +417,59 @@ Proof.
     destruct (render_attributes_layout attrs cs2 Hattrs) as [A [cs3 [E3 HA]]]. rewrite (rbind_eq _ _ _ _ _ E3).
     eexists. exists cs3. split; [reflexivity|].
     unfold cat. cbn [concat app]. rewrite !app_nil_r. apply el_term; assumption.
-  - cbn [simple_entry] in He. apply simple_comment_ne in He. cbn [content] in He. cbn [render_entry content].
+  - cbn [plain_entry] in He. apply simple_comment_ne in He. cbn [content] in He. cbn [render_entry content].
     destruct (render_comment_lines_layout [35%N] ls He cs) as [C [cs' [E HC]]].
     exists C, cs'. split; [exact E | constructor; exact HC].
-  - cbn [simple_entry] in He. apply simple_comment_ne in He. cbn [content] in He. cbn [render_entry content].
+  - cbn [plain_entry] in He. apply simple_comment_ne in He. cbn [content] in He. cbn [render_entry content].
     destruct (render_comment_lines_layout [35; 35]%N ls He cs) as [C [cs' [E HC]]].
     exists C, cs'. split; [exact E | constructor; exact HC].
-  - cbn [simple_entry] in He. apply simple_comment_ne in He. cbn [content] in He. cbn [render_entry content].
+  - cbn [plain_entry] in He. apply simple_comment_ne in He. cbn [content] in He. cbn [render_entry content].
     destruct (render_comment_lines_layout [35; 35; 35]%N ls He cs) as [C [cs' [E HC]]].
     exists C, cs'. split; [exact E | constructor; exact HC].
+Qed.
+
+Lemma simple_entry_cases e : simple_entry e = true ->
+  (entry_comment e = None /\ plain_entry e = true) \/
+  (exists e0 ls, e = attach e0 (Comment ls) /\ is_message_or_term e0 = true /\ entry_comment e0 = None /\
+                 plain_entry e0 = true /\ simple_comment (Comment ls) = true).
+Proof.
+  unfold simple_entry. intros H. apply andb_prop in H as [Hp Hc].
+  destruct e as [id v attrs [[ls]|]|id v attrs [[ls]|]|c|c|c|j]; cbn [entry_comment strip_comment] in *;
+    try (left; split; [reflexivity | exact Hp]).
+  - right. exists (Message id v attrs None), ls. repeat split; assumption.
+  - right. exists (Term id v attrs None), ls. repeat split; assumption.
+Qed.
+
+(* the text of an entry with an attached comment: the comment, a line end, the entry *)
+Lemma render_entry_attached e0 ls cs : is_message_or_term e0 = true -> entry_comment e0 = None ->
+  render_entry (attach e0 (Comment ls)) cs =
+  (let '(C, cs1) := render_comment_lines [35%N] ls cs in
+   let '(x, cs2) := eol cs1 in
+   let '(E, cs3) := render_entry e0 cs2 in ((C ++ x) ++ E, cs3)).
+Proof.
+  intros Hmt Hc. destruct e0 as [id v attrs cm|id v attrs cm| | | |]; try discriminate Hmt; cbn [entry_comment] in Hc; subst cm;
+    cbn [attach render_entry render_opt_comment content]; unfold rbind, rret;
+    destruct (render_comment_lines [35%N] ls cs) as [C cs1]; destruct (eol cs1) as [x cs2];
+    destruct (blank_inline_opt cs2) as [b1 cs3].
+  - destruct v as [p|].
+    + destruct (render_value 4 p cs3) as [V cs4]. destruct (render_attributes attrs cs4) as [A cs5].
+      unfold cat. cbn [concat app]. reflexivity.
+    + destruct (render_attributes attrs cs3) as [A cs5]. unfold cat. cbn [concat app]. reflexivity.
+  - destruct (render_value 4 v cs3) as [V cs4]. destruct (render_attributes attrs cs4) as [A cs5].
+    unfold cat. cbn [concat app]. reflexivity.
+Qed.
+
+Lemma render_entry_layout e cs : simple_entry e = true ->
+  exists E cs', render_entry e cs = (E, cs') /\ entry_layout e E.
+Proof.
+  intros He. destruct (simple_entry_cases e He) as [[Hc Hp] | (e0 & ls & -> & Hmt & Hc & Hp & Hcm)].
+  - destruct (render_plain_layout e cs Hp) as [E [cs' [E1 HE]]]. exists E, cs'. split; [exact E1 | apply el_plain; assumption].
+  - rewrite (render_entry_attached e0 ls cs Hmt Hc).
+    pose proof (simple_comment_ne _ Hcm) as Hne. cbn [content] in Hne.
+    destruct (render_comment_lines_layout [35%N] ls Hne cs) as [C [cs1 [E1 HC]]]. rewrite E1.
+    destruct (eol_spec' cs1) as [x [cs2 [E2 Hx]]]. rewrite E2.
+    destruct (render_plain_layout e0 cs2 Hp) as [E [cs3 [E3 HE]]]. rewrite E3.
+    exists ((C ++ x) ++ E), cs3. split; [reflexivity|]. rewrite <- app_assoc. apply el_attached; assumption.
 Qed.
 
 Lemma render_entries_layout t : forall cs, simple_resource t = true ->
@@ -673,10 +735,13 @@ Proof.
   rewrite <- (rev_last v Hne). apply rev_involutive.
 Qed.
 
-Lemma nonblank_last v : v <> [] -> ends_nonspace v -> is_nonblank v = true.
+Lemma nonblank_last v : text_line v -> v <> [] -> ends_nonspace v -> is_nonblank v = true.
 Proof.
-  intros Hne Hlast. unfold is_nonblank. apply existsb_exists. exists (last v 0%N).
-  split; [apply last_in, Hne|]. unfold c_sp. unfold ends_nonspace in Hlast. rewrite Hlast. reflexivity.
+  intros Hline Hne Hlast. unfold is_nonblank. apply existsb_exists. exists (last v 0%N).
+  pose proof (last_in v 0%N Hne) as Hin. split; [exact Hin|].
+  unfold text_line in Hline. rewrite forallb_forall in Hline. apply Hline in Hin.
+  apply wf_text_byte_spec in Hin as (_ & _ & H13 & _).
+  unfold c_sp, c_cr. unfold ends_nonspace in Hlast. rewrite ?Hlast, ?H13. reflexivity.
 Qed.
 
 (* ---- finishing the placeholders ---- *)
@@ -986,7 +1051,7 @@ Proof.
       inversion HL; subst. cbn [app] in H. cbn [last_text_ok] in Hlast. cbn [length] in Hcons.
       assert (HlnbF : lnbF = ne) by (rewrite (Hcons ltac:(discriminate)); lia). subst lnbF.
       destruct (after_value_line_tail T used c nx HT) as (term & eo & po & R & Hlt).
-      assert (Hnb : is_nonblank v = true) by (apply nonblank_last; [exact Hnev | exact Hlast]).
+      assert (Hnb : is_nonblank v = true) by (apply nonblank_last; [exact Hline | exact Hnev | exact Hlast]).
       destruct (get_text_slice_line p v T term eo po R H Hline Hlt) as [Hts _]. rewrite Hnb in Hts.
       rewrite (step_text v T term eo po true phs ne lnb ci rl p n Hrole Hv H Hts).
       destruct (after_line T used c nx term eo po R (PHText p (eo + (length v + p)) 0 rl :: phs) (S ne) (Some ne) ci
@@ -1062,13 +1127,27 @@ Lemma line_layout_placeable_inv i r L : line_layout (PlaceableElement (Inline i)
                    line_layout r L2.
 Proof. intros H. inversion H; subst. eauto 8. Qed.
 
+(* pattern.rs drop_empty_tail leaves the elements of a line of the fragment alone: the last element is a
+   placeable, or a text that is its own trimmed form and is not empty *)
+Definition tail_kept (els : list pattern_element) : Prop := drop_empty_tail els = Some (Pattern els).
+
+Lemma tail_kept_intro els : els <> [] ->
+  match rev els with TextElement v :: _ => trim_end v = v /\ v <> [] | _ => True end -> tail_kept els.
+Proof.
+  intros Hne Hl. unfold tail_kept, drop_empty_tail.
+  assert (Hd : drop_empty_tail_rev (rev els) = rev els).
+  { destruct (rev els) as [|[v|e] r]; try reflexivity. cbn [drop_empty_tail_rev]. destruct Hl as [-> Hv].
+    destruct v; [congruence | reflexivity]. }
+  rewrite Hd, rev_involutive. destruct els; [congruence | reflexivity].
+Qed.
+
 Lemma finish_pattern_ok extra phs_all ne' lnbF ci role' els q :
-  fin_all lnbF ci 0 phs_all els -> length phs_all = S lnbF ->
+  fin_all lnbF ci 0 phs_all els -> length phs_all = S lnbF -> tail_kept els ->
   finish_pattern bs (PState (extra ++ rev phs_all) ne' (Some lnbF) ci role') q = Ok (Some (Pattern els)) q.
 Proof.
-  intros Hfin Hlen. unfold finish_pattern. cbn [last_non_blank elements common_indent].
+  intros Hfin Hlen Hk. unfold finish_pattern. cbn [last_non_blank elements common_indent].
   rewrite rev_app_distr, rev_involutive. rewrite <- Hlen, firstn_app_len.
-  step (finish_elements_all lnbF ci 0 phs_all els Hfin q). reflexivity.
+  step (finish_elements_all lnbF ci 0 phs_all els Hfin q). unfold ret. rewrite Hk. reflexivity.
 Qed.
 
 Lemma last_ok_last_text_ok els prev : simple_elements els prev = true -> last_ok els = true -> last_text_ok els.
@@ -1086,6 +1165,34 @@ Proof.
       - apply andb_prop in Hs as [_ Hs]. exists false. exact Hs. }
     destruct Hs' as [prev' Hs']. specialize (IH prev' Hs' Hl').
     destruct el; exact IH.
+Qed.
+
+Lemma rev_head_last (els : list pattern_element) prev : simple_elements els prev = true -> last_text_ok els ->
+  match rev els with TextElement v :: _ => inner_text v = true /\ ends_nonspace v | _ => True end.
+Proof.
+  revert prev. induction els as [|el r IH]; intros prev Hs Hl; [exact Logic.I|].
+  destruct r as [|el2 r2].
+  - destruct el as [v|e]; [|exact Logic.I]. cbn [rev app]. cbn [last_text_ok] in Hl.
+    cbn [simple_elements] in Hs. apply andb_prop in Hs as [Hs _]. apply andb_prop in Hs as [_ Hv]. auto.
+  - assert (Hs' : exists prev', simple_elements (el2 :: r2) prev' = true).
+    { destruct el as [v | [sel vs | i]]; cbn [simple_elements] in Hs; try discriminate Hs.
+      - apply andb_prop in Hs as [_ Hs]. exists true. exact Hs.
+      - apply andb_prop in Hs as [_ Hs]. exists false. exact Hs. }
+    destruct Hs' as [prev' Hs'].
+    assert (Hl' : last_text_ok (el2 :: r2)) by (destruct el; exact Hl).
+    specialize (IH prev' Hs' Hl'). cbn [rev] in IH |- *.
+    destruct (rev r2 ++ [el2]) as [|x xs] eqn:E; [destruct (rev r2); discriminate E|]. exact IH.
+Qed.
+
+Lemma simple_pattern_tail_kept els : simple_pattern (Pattern els) = true -> tail_kept els.
+Proof.
+  intros Hp. destruct (simple_pattern_parts els Hp) as (Hne & Hs & Hf & Hl).
+  apply tail_kept_intro; [exact Hne|].
+  pose proof (rev_head_last els false Hs (last_ok_last_text_ok els false Hs Hl)) as H.
+  destruct (rev els) as [|[v|e] r]; try exact Logic.I. destruct H as [Hv Hlast].
+  destruct (inner_text_spec v Hv) as (b & t & Ev & _ & Hline).
+  assert (Hnev : v <> []) by (rewrite Ev; discriminate).
+  split; [apply trim_end_text; assumption | exact Hnev].
 Qed.
 
 (* the first byte of a line *)
@@ -1122,7 +1229,7 @@ Proof.
               Hs (last_ok_last_text_ok els false Hs Hl) HT eq_refl ltac:(congruence) ltac:(intros _; reflexivity) H Hn)
     as (pn & extra & ne' & role' & E & Hfin & Hlen).
   step E. rewrite app_nil_r.
-  apply finish_pattern_ok; [exact Hfin|]. rewrite Hlen. destruct els; [congruence | cbn [length]; lia].
+  apply finish_pattern_ok; [exact Hfin | | apply simple_pattern_tail_kept, Hp]. rewrite Hlen. destruct els; [congruence | cbn [length]; lia].
 Qed.
 
 Lemma line_block els L ind T used c nx p n :
@@ -1148,7 +1255,10 @@ Proof.
       apply negb_true_iff in Hok. apply orb_false_elim in Hok as [Hok H42]. apply orb_false_elim in Hok as [H46 H91].
       unfold is_byte_pattern_continuation. rewrite H46, H125, H91, H42. reflexivity. }
     assert (Hnb : is_nonblank v = true).
-    { rewrite Ev. cbn [is_nonblank existsb]. unfold c_sp. rewrite H32. reflexivity. }
+    { assert (H13 : N.eqb b 13 = false).
+      { unfold text_line in Hline. rewrite Ev in Hline. cbn [forallb] in Hline. apply andb_prop in Hline as [Hb' _].
+        apply wf_text_byte_spec in Hb'. tauto. }
+      rewrite Ev. cbn [is_nonblank existsb]. unfold c_sp, c_cr. rewrite ?H32, ?H13. reflexivity. }
     assert (Hscv : forall X, starts_char (v ++ X) = true) by (intros X; rewrite Ev; cbn; rewrite Hc; reflexivity).
     assert (Hlenv : 1 <= length v) by (rewrite Ev; cbn [length]; clear; lia).
     rewrite <- app_assoc in H, Hq.
@@ -1163,7 +1273,7 @@ Proof.
         as (extra & ne' & role' & E).
       step E.
       apply (finish_pattern_ok extra [PHText p (eo + (length v + (ind + p))) ind LineStart] ne' 0 (Some ind) role');
-        [|reflexivity].
+        [|reflexivity | apply simple_pattern_tail_kept, Hp].
       destruct (last_text_slice v T used c nx term eo po R (ind + p) Hv Hlast HT Hlt Hq) as [v' [Es Et]].
       apply fa_some; [|constructor].
       pose proof (fin_text 0 (Some ind) 0 p (eo + (length v + (ind + p))) ind LineStart (ind + p) v') as Hfn.
@@ -1197,6 +1307,7 @@ Proof.
         apply Hfn; [clear; lia | clear - Hlenv; lia|].
         apply (at_slice bs (ind + p) v _ Hq); [apply Hscv | reflexivity].
       * cbn [length]. rewrite Hlen. reflexivity.
+      * apply simple_pattern_tail_kept, Hp.
   - (* the line starts with a placeable *)
     assert (H' : at_ bs p (sp ind ++ 123%N :: (b1 ++ inline_text i ++ b2 ++ 125%N :: L) ++ T)) by exact H.
     rewrite (bind_congr _ _ _ _ _ (step_block_indent ind _ p n Hind H')).
@@ -1212,6 +1323,7 @@ Proof.
     apply finish_pattern_ok.
     + apply fa_none; [|exact Hfin]. apply fin_text_none. cbn [is_line_start]. clear; lia.
     + cbn [length]. rewrite Hlen. reflexivity.
+    + apply simple_pattern_tail_kept, Hp.
 Qed.
 
 Lemma get_pattern_S n :
@@ -1662,7 +1774,7 @@ Qed.
 Lemma simple_comment_line_spec l : simple_comment_line l = true ->
   wf_comment_line l = true /\ starts_char l = true.
 Proof.
-  unfold simple_comment_line. intros H. apply andb_prop in H as [H _]. apply andb_prop in H. exact H.
+  unfold simple_comment_line. intros H. apply andb_prop in H. exact H.
 Qed.
 
 Lemma skip_eol_any rest p : at_ bs p rest ->
@@ -1791,14 +1903,14 @@ Definition nlines (e : entry) : nat :=
 
 (* get_entry on a printed message or term of the fragment *)
 Lemma get_entry_simple e E T used c next p n :
-  simple_entry e = true -> is_comment_entry e = false -> entry_layout e E -> entry_tail T used c next ->
+  plain_entry e = true -> is_comment_entry e = false -> plain_layout e E -> entry_tail T used c next ->
   at_ bs p (E ++ T) -> length E + used + 2 * c + 14 <= n ->
   get_entry bs n p p = Ok e (used + (length E + p)).
 Proof.
   intros He Hnc HE HT H Hn. unfold get_entry. rewrite bind_current_byte.
   destruct HE as [ls C HC | ls C HC | ls C HC
                   | id els attrs k V A HV HA | id attrs k A Hne HA | id els attrs k V A HV HA];
-    try discriminate Hnc; cbn [simple_entry] in He.
+    try discriminate Hnc; cbn [plain_entry] in He.
   - apply andb_prop in He as [He Hattrs]. apply andb_prop in He as [Hid Hv].
     destruct (wf_identifier_head id Hid) as (b & r & Eid & Hb).
     assert (Hb0 : at_ bs p (b :: r ++ (sp k ++ 61%N :: V ++ A) ++ T)).
@@ -1866,7 +1978,7 @@ Lemma comment_entry_step P lvl ls C T used c S' p n :
   comment_layout P ls C -> prefix_level P lvl -> forallb simple_comment_line ls = true -> last ls [] <> [] ->
   entry_tail T used c S' -> next_after_comment lvl c S' -> at_ bs p (C ++ T) -> length ls + 1 <= n ->
   exists p1 cnt, get_comment_loop bs n LNone [] p = Ok (Comment ls, lvl) p1 /\
-                 skip_blank_block bs p1 = Ok cnt (used + (length C + p)) /\ (1 <= c -> cnt = S c).
+                 skip_blank_block bs p1 = Ok cnt (used + (length C + p)) /\ ((1 <= c -> cnt = S c) /\ cnt <= S c).
 Proof.
   intros HC HP Hs Hlast HT Hnext H Hn.
   assert (Hrest : line_end_or_eof T).
@@ -1879,7 +1991,7 @@ Proof.
   - cbn [eol_len Nat.add]. exists (length C + p), 0. split; [|split].
     + rewrite (comment_loop_stop_eof lvl (rev ls) _ m H0), rev_involutive. reflexivity.
     + apply (skip_blank_block_none bs _ [] H0 no_blank_line_head_nil).
-    + lia.
+    + split; lia.
   - rewrite (eol_len_eol x _ Hx).
     destruct c as [|c].
     + (* no blank line *)
@@ -1889,19 +2001,19 @@ Proof.
         pose proof (at_app _ _ _ _ H0) as H1. split; [|split].
         -- rewrite (comment_loop_stop_eof lvl (rev ls) _ m H1), rev_involutive. reflexivity.
         -- rewrite (skip_blank_block_none bs _ [] H1 no_blank_line_head_nil). f_equal. lia.
-        -- lia.
+        -- split; lia.
       * destruct (comment_stop_other lvl (rev ls) x 0 [] (b :: t) b t _ m Hx bl_nil eq_refl Hb HS' H0) as [p1 [E1 E2]].
-        exists p1, 1. rewrite E1, rev_involutive. split; [reflexivity | split; [|lia]].
+        exists p1, 1. rewrite E1, rev_involutive. split; [reflexivity | split; [|split; lia]].
         rewrite E2. f_equal; cbn [length]; lia.
       * exists (length x + (length C + p)), 0.
         pose proof (at_app _ _ _ _ H0) as H1. split; [|split].
         -- rewrite (comment_loop_stop_level lvl (rev ls) P' lvl' t _ m HP' Ht (prefix_level_not_none _ _ HP) Hne H1),
              rev_involutive. reflexivity.
         -- rewrite (skip_blank_block_none bs _ _ H1 (entry_start_no_blank_line _ HS')). f_equal. lia.
-        -- lia.
+        -- split; lia.
     + destruct (blank_lines_head c BL HBL S') as (b & t & Eb & Hb).
       destruct (comment_stop_other lvl (rev ls) x (S c) BL S' b t _ m Hx HBL Eb Hb HS' H0) as [p1 [E1 E2]].
-      exists p1, (S (S c)). rewrite E1, rev_involutive. split; [reflexivity | split; [|reflexivity]].
+      exists p1, (S (S c)). rewrite E1, rev_involutive. split; [reflexivity | split; [|split; [reflexivity | lia]]].
       rewrite E2. f_equal; lia.
 Qed.
 
@@ -1931,15 +2043,15 @@ Lemma simple_comment_spec ls : simple_comment (Comment ls) = true ->
   forallb simple_comment_line ls = true /\ last ls [] <> [].
 Proof.
   unfold simple_comment. cbn [content]. destruct ls as [|l r]; [discriminate|]. intros H.
-  apply andb_prop in H as [H1 H2]. split; [exact H1|]. destruct (last (l :: r) []); [discriminate | discriminate].
+  apply andb_prop in H as [H1 H2]. split; [exact H1|]. destruct (last (l :: r) []); [discriminate H2 | discriminate].
 Qed.
 
 (* one entry of the fragment and the blank lines after it *)
 Lemma entry_step e E T used c S' p n :
-  simple_entry e = true -> entry_layout e E -> entry_tail T used c S' -> follows_ok e c S' ->
+  plain_entry e = true -> plain_layout e E -> entry_tail T used c S' -> follows_ok e c S' ->
   at_ bs p (E ++ T) -> length E + used + 2 * c + 14 <= n ->
   exists p1 cnt, get_entry bs n p p = Ok e p1 /\ skip_blank_block bs p1 = Ok cnt (used + (length E + p)) /\
-                 (1 <= c -> is_comment_entry e = true -> cnt = S c).
+                 (1 <= c -> is_comment_entry e = true -> cnt = S c) /\ cnt <= S c.
 Proof.
   intros He HE HT Hf H Hn.
   destruct (is_comment_entry e) eqn:Hce.
@@ -1950,33 +2062,33 @@ Proof.
                            | LRegular => @ret entry (CommentEntry cm) | LGroup => ret (GroupComment cm)
                            | LResource => ret (ResourceComment cm) | LNone => panic "unreachable" end = ret (mk cm)) ->
                exists p1 cnt, get_entry bs n p p = Ok (mk (Comment ls)) p1 /\
-                              skip_blank_block bs p1 = Ok cnt (used + (length E + p)) /\ (1 <= c -> true = true -> cnt = S c)).
+                              skip_blank_block bs p1 = Ok cnt (used + (length E + p)) /\ (1 <= c -> true = true -> cnt = S c) /\ cnt <= S c).
     { intros P lvl ls C mk HC HP -> Hsc Hnx Hfuel Hmk.
       destruct (simple_comment_spec ls Hsc) as [Hs Hlast].
-      destruct (comment_entry_step P lvl ls C T used c S' p n HC HP Hs Hlast HT Hnx H Hfuel) as (p1 & cnt & E1 & E2 & E3).
-      exists p1, cnt. split; [|split; [exact E2 | intros Hc _; apply E3, Hc]].
+      destruct (comment_entry_step P lvl ls C T used c S' p n HC HP Hs Hlast HT Hnx H Hfuel) as (p1 & cnt & E1 & E2 & E3 & E4).
+      exists p1, cnt. split; [|split; [exact E2 | split; [intros Hc _; apply E3, Hc | exact E4]]].
       unfold get_entry. rewrite bind_current_byte.
       assert (Hb : byte_at bs p = Some 35%N).
       { destruct (comment_layout_head P ls C HC) as [t [-> _]].
         destruct HP as [[-> _] | [[-> _] | [-> _]]]; cbn [app] in H; apply (at_byte _ _ _ _ H). }
       rewrite Hb. change (N.eqb 35 35) with true. cbv iota. unfold get_comment. step E1. cbv beta iota.
       rewrite Hmk. reflexivity. }
-    destruct HE as [ls C HC | ls C HC | ls C HC | | | ]; try discriminate Hce; cbn [simple_entry follows_ok nlines content] in *;
+    destruct HE as [ls C HC | ls C HC | ls C HC | | | ]; try discriminate Hce; cbn [plain_entry follows_ok nlines content] in *;
       pose proof (comment_layout_length _ ls C HC ltac:(discriminate)) as HlsC.
     + apply (Hgen [35%N] LRegular ls C CommentEntry HC); auto; [left; auto | lia].
     + apply (Hgen [35; 35]%N LGroup ls C GroupComment HC); auto; [right; left; auto | lia].
     + apply (Hgen [35; 35; 35]%N LResource ls C ResourceComment HC); auto; [right; right; auto | lia].
-  - exists (used + (length E + p)), 0. split; [|split; [|discriminate]].
+  - exists (used + (length E + p)), 0. split; [|split; [|split; [discriminate | lia]]].
     + apply (get_entry_simple e E T used c S' p n He Hce HE HT H). lia.
     + destruct (entry_tail_next T used c S' HT) as [Hnext Hat].
       apply (skip_blank_block_none bs _ S' (Hat _ (at_app _ _ _ _ H)) (entry_start_no_blank_line _ Hnext)).
 Qed.
 
-Lemma entry_layout_start e E : simple_entry e = true -> entry_layout e E -> forall T, entry_start_bytes (E ++ T).
+Lemma entry_layout_start e E : plain_entry e = true -> plain_layout e E -> forall T, entry_start_bytes (E ++ T).
 Proof.
   intros He HE T.
   destruct HE as [ls C HC | ls C HC | ls C HC
-                  | id els attrs k V A HV HA | id attrs k A Hne HA | id els attrs k V A HV HA]; cbn [simple_entry] in He.
+                  | id els attrs k V A HV HA | id attrs k A Hne HA | id els attrs k V A HV HA]; cbn [plain_entry] in He.
   1-3: (destruct (comment_layout_head _ ls C HC) as [t [-> _]]; right; exists 35%N; eexists;
         (split; [reflexivity | right; right; reflexivity])).
   all: apply andb_prop in He as [He _]; apply andb_prop in He as [Hid _].
@@ -1987,7 +2099,7 @@ Proof.
   - right. exists 45%N. eexists. split; [reflexivity|]. right; left; reflexivity.
 Qed.
 
-Lemma entry_layout_length e E : entry_layout e E -> 1 <= length E /\ nattrs e + nlines e <= length E.
+Lemma entry_layout_length e E : plain_layout e E -> 1 <= length E /\ nattrs e + nlines e <= length E.
 Proof.
   intros HE.
   destruct HE as [ls C HC | ls C HC | ls C HC
@@ -1999,34 +2111,60 @@ Proof.
     rewrite ?app_length; lia.
 Qed.
 
+Lemma strip_comment_none e : entry_comment e = None -> strip_comment e = e.
+Proof. destruct e as [? ? ? c|? ? ? c| | | |]; cbn; intros H; try reflexivity; subst c; reflexivity. Qed.
+
+Lemma any_layout_start e E : simple_entry e = true -> entry_layout e E -> forall T, entry_start_bytes (E ++ T).
+Proof.
+  intros He HE T. destruct HE as [e E Hc HE | e ls C x E Hmt Hc HC Hx HE].
+  - apply (entry_layout_start e E); [|exact HE].
+    unfold simple_entry in He. rewrite (strip_comment_none e Hc) in He. apply andb_prop in He as [He _]. exact He.
+  - destruct (comment_layout_head _ ls C HC) as [t [-> _]]. right. exists 35%N. eexists.
+    split; [reflexivity | right; right; reflexivity].
+Qed.
+
+Lemma any_layout_length e E : entry_layout e E -> 1 <= length E.
+Proof.
+  intros [e0 E0 Hc HE | e0 ls C x E0 Hmt Hc HC Hx HE].
+  - apply (entry_layout_length e0 E0 HE).
+  - destruct (entry_layout_length e0 E0 HE) as [H1 _]. rewrite !app_length. lia.
+Qed.
+
 Lemma entries_layout_start r S : simple_resource r = true -> entries_layout r S -> entry_start_bytes S.
 Proof.
   intros Hr HS. destruct HS as [|e r' E T HE HT]; [left; reflexivity|].
   cbn [simple_resource forallb] in Hr. apply andb_prop in Hr as [He _].
-  apply (entry_layout_start e E He HE T).
+  apply (any_layout_start e E He HE T).
 Qed.
 
 Definition level_of_entry (e : entry) : level :=
   match e with CommentEntry _ => LRegular | GroupComment _ => LGroup | ResourceComment _ => LResource | _ => LNone end.
 
+(* the level of the comment an entry's text starts with *)
+Definition head_level (e : entry) : level :=
+  match e with
+  | CommentEntry _ => LRegular | GroupComment _ => LGroup | ResourceComment _ => LResource
+  | Message _ _ _ (Some _) | Term _ _ _ (Some _) => LRegular
+  | _ => LNone
+  end.
+
 (* the first bytes of the entries that follow tell the comment loop to stop *)
-Lemma entries_layout_after_comment lvl r S :
-  simple_resource r = true -> entries_layout r S ->
-  match r with e2 :: _ => level_of_entry e2 <> lvl | [] => True end ->
-  next_after_comment lvl 0 S.
+Lemma plain_layout_after_comment lvl e2 E T :
+  plain_entry e2 = true -> plain_layout e2 E -> line_end_or_eof T -> level_of_entry e2 <> lvl ->
+  (exists b t, E ++ T = b :: t /\ N.eqb b 35 = false) \/
+  (exists P' lvl' t, E ++ T = P' ++ t /\ prefix_level P' lvl' /\ head_not_hash t /\ lvl' <> lvl).
 Proof.
-  intros Hr HS Hlvl _. destruct HS as [|e2 r' E T HE HT]; [left; reflexivity|].
-  cbn [simple_resource forallb] in Hr. apply andb_prop in Hr as [He _]. right.
+  intros He HE HT Hlvl.
   destruct HE as [ls C HC | ls C HC | ls C HC
                   | id els attrs k V A HV HA | id attrs k A Hne HA | id els attrs k V A HV HA];
-    cbn [simple_entry level_of_entry] in *.
+    cbn [plain_entry level_of_entry] in *.
   1-3: (right; destruct (comment_layout_head _ ls C HC) as [t [-> Ht]]; rewrite <- app_assoc).
   - exists [35%N], LRegular, (t ++ T). split; [reflexivity|]. split; [left; auto|]. split; [|exact Hlvl].
-    destruct t; [|exact Ht]. destruct HT as [|? ? x ? ? ? [-> | ->]]; [exact Logic.I | reflexivity | reflexivity].
+    destruct t; [|exact Ht]. destruct HT as [-> | (x & r & -> & [-> | ->])]; [exact Logic.I | reflexivity | reflexivity].
   - exists [35; 35]%N, LGroup, (t ++ T). split; [reflexivity|]. split; [right; left; auto|]. split; [|exact Hlvl].
-    destruct t; [|exact Ht]. destruct HT as [|? ? x ? ? ? [-> | ->]]; [exact Logic.I | reflexivity | reflexivity].
+    destruct t; [|exact Ht]. destruct HT as [-> | (x & r & -> & [-> | ->])]; [exact Logic.I | reflexivity | reflexivity].
   - exists [35; 35; 35]%N, LResource, (t ++ T). split; [reflexivity|]. split; [right; right; auto|]. split; [|exact Hlvl].
-    destruct t; [|exact Ht]. destruct HT as [|? ? x ? ? ? [-> | ->]]; [exact Logic.I | reflexivity | reflexivity].
+    destruct t; [|exact Ht]. destruct HT as [-> | (x & r & -> & [-> | ->])]; [exact Logic.I | reflexivity | reflexivity].
   - left. apply andb_prop in He as [He _]; apply andb_prop in He as [Hid _].
     destruct (wf_identifier_head id Hid) as (b & r0 & -> & Hb). exists b. eexists. split; [reflexivity|].
     unfold is_ascii_alphabetic, in_rng in Hb. lia.
@@ -2034,6 +2172,27 @@ Proof.
     destruct (wf_identifier_head id Hid) as (b & r0 & -> & Hb). exists b. eexists. split; [reflexivity|].
     unfold is_ascii_alphabetic, in_rng in Hb. lia.
   - left. exists 45%N. eexists. split; reflexivity.
+Qed.
+
+Lemma tail_layout_line_end e r T : tail_layout e r T -> line_end_or_eof T.
+Proof. intros [e' | e' r' x c BL S Hx HBL HS Hmin]; [left; reflexivity | right; exists x, (BL ++ S); auto]. Qed.
+
+Lemma entries_layout_after_comment lvl r S :
+  simple_resource r = true -> entries_layout r S ->
+  match r with e2 :: _ => head_level e2 <> lvl | [] => True end ->
+  next_after_comment lvl 0 S.
+Proof.
+  intros Hr HS Hlvl _. destruct HS as [|e2 r' E T HE HT]; [left; reflexivity|].
+  cbn [simple_resource forallb] in Hr. apply andb_prop in Hr as [He _]. right.
+  destruct HE as [e E Hc HE | e ls C x E Hmt Hc HC Hx HE].
+  - unfold simple_entry in He. rewrite (strip_comment_none e Hc) in He. apply andb_prop in He as [He _].
+    apply (plain_layout_after_comment lvl e E T He HE (tail_layout_line_end _ _ _ HT)).
+    destruct e as [? ? ? cm|? ? ? cm| | | |]; cbn [entry_comment] in Hc; try subst cm; exact Hlvl.
+  - right. destruct (comment_layout_head _ ls C HC) as [t [-> Ht]].
+    exists [35%N], LRegular, (t ++ (x ++ E) ++ T). split; [rewrite <- !app_assoc; reflexivity|].
+    split; [left; auto|]. split.
+    + destruct t; [|exact Ht]. destruct Hx as [-> | ->]; reflexivity.
+    + destruct e as [? ? ? cm|? ? ? cm| | | |]; try discriminate Hmt; exact Hlvl.
 Qed.
 
 Lemma tail_layout_entry_tail e r T : simple_resource r = true -> tail_layout e r T ->
@@ -2052,13 +2211,9 @@ Proof.
         apply (entries_layout_after_comment lvl r' S Hr HS); [|reflexivity].
         destruct r' as [|e2 r2]; [exact Logic.I|]. intros E2.
         unfold min_blank_between in Hmin.
-        assert (Hcl : comment_level e' = comment_level e2 /\ comment_level e' <> 0).
-        { destruct e', e2; cbn [level_of_entry comment_level] in *; try congruence; split; congruence || discriminate. }
-        destruct Hcl as [Hcl1 Hcl2].
-        destruct (Nat.eqb (comment_level e') 1 && is_message_or_term e2); [lia|].
-        rewrite <- Hcl1, Nat.eqb_refl in Hmin.
-        destruct (Nat.eqb (comment_level e') 0) eqn:E0; [apply Nat.eqb_eq in E0; congruence|].
-        cbn in Hmin. lia. }
+        destruct e' as [? ? ? ?|? ? ? ?|c1|c1|c1|?]; cbn [level_of_entry] in El; try congruence;
+          destruct e2 as [? ? ? [?|]|? ? ? [?|]|c2|c2|c2|?]; cbn [head_level] in E2; try congruence;
+          cbn in Hmin; lia. }
       destruct e'; cbn [follows_ok]; try exact Logic.I; apply Hgen; (reflexivity || discriminate).
 Qed.
 
@@ -2066,9 +2221,54 @@ Definition pending_list (pending : option comment) : list entry :=
   match pending with Some c => [CommentEntry c] | None => [] end.
 Definition pending_ok (pending : option comment) (cnt : nat) (t : list entry) : Prop :=
   match pending, t with
-  | Some _, e :: _ => is_message_or_term e = true -> 2 <= cnt
+  | Some _, e :: _ => is_message_or_term e = true -> entry_comment e = None -> 2 <= cnt
   | _, _ => True
   end.
+
+(* what one turn of the main loop does with a parsed entry: the pending comment is attached to it, or is
+   pushed in front of it; a stand-alone '#' comment becomes the pending comment *)
+Definition turn (pending : option comment) (cnt : nat) (e : entry) (body : list entry) : list entry * option comment :=
+  match pending with
+  | Some c0 =>
+      if is_message_or_term e && Nat.ltb cnt 2 then (attach e c0 :: body, None)
+      else match e with
+           | CommentEntry c1 => (CommentEntry c0 :: body, Some c1)
+           | _ => (e :: CommentEntry c0 :: body, None)
+           end
+  | None => match e with CommentEntry c1 => (body, Some c1) | _ => (e :: body, None) end
+  end.
+
+(* one turn of the main loop on a printed entry without attached comment *)
+Lemma parse_loop_turn e E T used c S' p n body pending cnt :
+  plain_entry e = true -> plain_layout e E -> entry_tail T used c S' -> follows_ok e c S' ->
+  at_ bs p (E ++ T) -> length E + used + 2 * c + 14 <= n ->
+  exists cnt',
+    parse_loop bs (S n) body [] pending cnt p =
+    parse_loop bs n (fst (turn pending cnt e body)) [] (snd (turn pending cnt e body)) cnt' (used + (length E + p)) /\
+    (1 <= c -> is_comment_entry e = true -> cnt' = S c) /\ cnt' <= S c.
+Proof.
+  intros He HE HET Hfol H Hc.
+  cbn [parse_loop]. rewrite bind_get_ptr.
+  destruct (entry_layout_length e E HE) as [HE1 HE2].
+  assert (Hlt : Nat.ltb p (length_ bs) = true).
+  { destruct (entry_layout_start e E He HE T) as [E0 | (b & t & E0 & _)].
+    - exfalso. apply (f_equal (@length N)) in E0. rewrite app_length in E0. cbn [length] in E0. lia.
+    - rewrite E0 in H. apply (at_ltb _ _ _ _ H). }
+  rewrite Hlt. cbn [negb].
+  destruct (entry_step e E T used c S' p n He HE HET Hfol H Hc) as (p1 & cnt' & Hge & Hsb & Hcnt & Hle).
+  rewrite (bind_ok _ _ _ _ _ (try_ok _ _ _ _ Hge)).
+  exists cnt'. split; [|split; assumption].
+  unfold turn. destruct pending as [c0|].
+  - destruct (Nat.ltb cnt 2) eqn:Elt;
+      destruct HE; cbn [is_message_or_term andb attach fst snd]; cbv beta iota; rewrite bind_ret; step Hsb; reflexivity.
+  - destruct HE; cbn [fst snd]; cbv beta iota; rewrite bind_ret; step Hsb; reflexivity.
+Qed.
+
+Lemma entry_tail_blank_bound T used c S' : entry_tail T used c S' -> c <= length T /\ length T = used + length S'.
+Proof.
+  intros [|x c' BL nx Hx HBL Hn]; [cbn; lia|]. pose proof (blank_lines_length _ _ HBL).
+  rewrite !app_length. lia.
+Qed.
 
 (* the main loop over the printed entries *)
 Lemma parse_loop_entries t : forall S, entries_layout t S -> simple_resource t = true ->
@@ -2082,44 +2282,75 @@ Proof.
   - inversion HS as [|e' r' E T HE HT]; subst. clear HS.
     cbn [simple_resource forallb] in Ht. apply andb_prop in Ht as [He Hr].
     destruct (tail_layout_entry_tail e r T Hr HT) as (used & c & S' & HET & HS' & HlenT & Hfol & Hmin).
-    destruct n as [|n]; [lia|]. cbn [parse_loop]. rewrite bind_get_ptr.
-    destruct (entry_layout_length e E HE) as [HE1 HE2].
-    assert (Hlt : Nat.ltb p (length_ bs) = true).
-    { destruct (entry_layout_start e E He HE T) as [E0 | (b & t & E0 & _)].
-      - exfalso. apply (f_equal (@length N)) in E0. rewrite app_length in E0. cbn [length] in E0. lia.
-      - rewrite E0 in H. apply (at_ltb _ _ _ _ H). }
-    rewrite Hlt. cbn [negb].
-    assert (Hc : length E + used + 2 * c + 14 <= n).
-    { assert (c <= length T).
-      { inversion HET; subst; [cbn; lia|]. rewrite !app_length.
-        match goal with Hb : blank_lines_of c _ |- _ => pose proof (blank_lines_length _ _ Hb) end. lia. }
-      rewrite app_length in Hn. lia. }
-    destruct (entry_step e E T used c S' p n He HE HET Hfol H Hc) as (p1 & cnt' & Hge & Hsb & Hcnt).
-    rewrite (bind_ok _ _ _ _ _ (try_ok _ _ _ _ Hge)).
+    destruct (entry_tail_blank_bound T used c S' HET) as [HcT _].
     destruct (entry_tail_next T used c S' HET) as [Hnext Hat].
-    pose proof (Hat _ (at_app _ _ _ _ H)) as H1.
-    assert (Hfuel : 8 * length S' + 16 <= n) by (rewrite app_length in Hn; lia).
-    assert (Hpos : length S' + (used + (length E + p)) = length (E ++ T) + p) by (rewrite app_length; lia).
-    (* the two continuations *)
-    assert (IHnone : forall body', parse_loop bs n body' [] None cnt' (used + (length E + p)) =
-                                   Ok (rev body' ++ r, []) (length (E ++ T) + p)).
-    { intros body'. rewrite (IH S' HS' Hr _ body' None cnt' n H1 Logic.I Hfuel), Hpos. reflexivity. }
-    assert (IHsome : forall c1 body', e = CommentEntry c1 ->
-                       parse_loop bs n body' [] (Some c1) cnt' (used + (length E + p)) =
-                       Ok (rev body' ++ CommentEntry c1 :: r, []) (length (E ++ T) + p)).
-    { intros c1 body' ->. rewrite (IH S' HS' Hr _ body' (Some c1) cnt' n H1), Hpos; [reflexivity | | exact Hfuel].
-      destruct r as [|e2 r2]; [exact Logic.I|]. intros Hmt. cbn [pending_ok].
-      unfold min_blank_between in Hmin. cbn [comment_level Nat.eqb] in Hmin. rewrite Hmt in Hmin. cbn [andb] in Hmin.
-      rewrite (Hcnt Hmin eq_refl). lia. }
-    (* the pending comment goes in front of this entry *)
-    assert (Hattach : forall c0, pending = Some c0 -> is_message_or_term e = true -> Nat.ltb cnt 2 = false).
-    { intros c0 -> Hmt. apply Nat.ltb_ge. apply (Hpend Hmt). }
-    destruct pending as [c0|]; cbn [pending_list app].
-    + destruct HE; cbn [is_message_or_term] in Hattach; rewrite ?(Hattach c0 eq_refl eq_refl);
-        cbv beta iota; rewrite bind_ret; step Hsb;
-        first [ rewrite (IHsome _ _ eq_refl) | rewrite IHnone ]; cbn [rev]; rewrite <- ?app_assoc; reflexivity.
-    + destruct HE; cbv beta iota; rewrite bind_ret; step Hsb;
-        first [ rewrite (IHsome _ _ eq_refl) | rewrite IHnone ]; cbn [rev]; rewrite <- ?app_assoc; reflexivity.
+    pose proof (any_layout_length e E HE) as HE1.
+    destruct n as [|n]; [lia|].
+    rewrite app_length in Hn.
+    destruct HE as [e E Hcm HE | e0 ls C x E0 Hmt Hcm HC Hx HE0].
+    + (* an entry without attached comment: one turn *)
+      assert (Hp : plain_entry e = true).
+      { unfold simple_entry in He. rewrite (strip_comment_none e Hcm) in He. apply andb_prop in He as [He _]. exact He. }
+      destruct (parse_loop_turn e E T used c S' p n body pending cnt Hp HE HET Hfol H ltac:(lia)) as (cnt' & Eturn & Hcnt & Hle).
+      rewrite Eturn.
+      pose proof (Hat _ (at_app _ _ _ _ H)) as H1.
+      rewrite (IH S' HS' Hr _ _ _ cnt' n H1); [| |lia].
+      * f_equal; [|rewrite app_length; lia]. f_equal.
+        assert (Hnoattach : forall c0, pending = Some c0 -> is_message_or_term e && Nat.ltb cnt 2 = false).
+        { intros c0 ->. destruct (is_message_or_term e) eqn:Emt; [|reflexivity].
+          cbn [andb]. apply Nat.ltb_ge. apply (Hpend Emt Hcm). }
+        unfold turn. destruct pending as [c0|]; [rewrite (Hnoattach c0 eq_refl)|];
+          destruct e; cbn [fst snd pending_list rev app]; rewrite <- ?app_assoc; reflexivity.
+      * (* the new pending comment and the next entry *)
+        unfold turn.
+        assert (Hsnd : forall c1, e = CommentEntry c1 -> pending_ok (Some c1) cnt' r).
+        { intros c1 ->. destruct r as [|e2 r2]; [exact Logic.I|]. intros Hmt2 Hc2. 
+          unfold min_blank_between in Hmin. cbn [comment_level Nat.eqb] in Hmin. rewrite Hmt2 in Hmin. cbn [andb] in Hmin.
+          rewrite (Hcnt Hmin eq_refl). lia. }
+        destruct pending as [c0|]; [destruct (is_message_or_term e && Nat.ltb cnt 2)|];
+          destruct e; cbn [snd]; try exact Logic.I; try (destruct r; exact Logic.I); apply Hsnd; reflexivity.
+    + (* a message or term with its comment: the comment's turn, then the entry's turn attaches it *)
+      assert (He0 : plain_entry e0 = true /\ simple_comment (Comment ls) = true).
+      { destruct e0 as [id v a cm|id v a cm| | | |]; try discriminate Hmt; cbn [entry_comment] in Hcm; subst cm;
+          unfold simple_entry in He; cbn [attach strip_comment entry_comment] in He; apply andb_prop in He; exact He. }
+      destruct He0 as [Hp0 Hsc].
+      destruct (entry_layout_length e0 E0 HE0) as [HE01 _].
+      rewrite !app_length in Hn, HE1.
+      (* first turn: the comment *)
+      assert (HET1 : entry_tail (x ++ [] ++ (E0 ++ T)) (length x + length (@nil N)) 0 (E0 ++ T)).
+      { constructor; [exact Hx | constructor | apply (entry_layout_start e0 E0 Hp0 HE0 T)]. }
+      assert (Hfol1 : follows_ok (CommentEntry (Comment ls)) 0 (E0 ++ T)).
+      { cbn [follows_ok]. intros _. right.
+        destruct (plain_layout_after_comment LRegular e0 E0 T Hp0 HE0 (tail_layout_line_end _ _ _ HT)) as [Hl | Hr'].
+        - destruct e0; try discriminate Hmt; discriminate.
+        - left. exact Hl.
+        - right. exact Hr'. }
+      assert (H' : at_ bs p (C ++ x ++ [] ++ E0 ++ T)) by (rewrite <- !app_assoc in H; exact H).
+      assert (Hpc : plain_entry (CommentEntry (Comment ls)) = true) by exact Hsc.
+      destruct (parse_loop_turn (CommentEntry (Comment ls)) C (x ++ [] ++ (E0 ++ T)) _ 0 (E0 ++ T) p n body pending cnt
+                  Hpc (el_comment ls C HC) HET1 Hfol1 H' ltac:(cbn [length]; lia)) as (cnt1 & Eturn1 & _ & Hle1).
+      rewrite Eturn1.
+      assert (Et1 : turn pending cnt (CommentEntry (Comment ls)) body = (pending_list pending ++ body, Some (Comment ls))).
+      { unfold turn. destruct pending; reflexivity. }
+      rewrite Et1. cbn [fst snd].
+      (* second turn: the entry *)
+      destruct n as [|n]; [lia|].
+      assert (H2 : at_ bs (length x + length (@nil N) + (length C + p)) (E0 ++ T)).
+      { apply at_app in H'. apply at_app in H'. cbn [app length] in *.
+        replace (length x + 0 + (length C + p)) with (length x + (length C + p)) by lia. exact H'. }
+      assert (Hfol0 : follows_ok e0 c S') by (destruct e0; try discriminate Hmt; exact Logic.I).
+      destruct (parse_loop_turn e0 E0 T used c S' _ n (pending_list pending ++ body) (Some (Comment ls)) cnt1
+                  Hp0 HE0 HET Hfol0 H2 ltac:(lia)) as (cnt2 & Eturn2 & _ & _).
+      rewrite Eturn2.
+      assert (Et2 : turn (Some (Comment ls)) cnt1 e0 (pending_list pending ++ body) =
+                    (attach e0 (Comment ls) :: pending_list pending ++ body, None)).
+      { unfold turn. rewrite Hmt. replace (Nat.ltb cnt1 2) with true by (symmetry; apply Nat.ltb_lt; lia). reflexivity. }
+      rewrite Et2. cbn [fst snd].
+      pose proof (Hat _ (at_app _ _ _ _ H2)) as H3.
+      rewrite (IH S' HS' Hr _ _ None cnt2 n H3 Logic.I ltac:(lia)).
+      f_equal; [|cbn [length]; rewrite !app_length; lia]. f_equal.
+      cbn [rev pending_list app]. rewrite rev_app_distr.
+      destruct pending; cbn [pending_list rev app]; rewrite <- ?app_assoc; reflexivity.
 Qed.
 
 End OnLayout.
@@ -2286,12 +2517,21 @@ Proof.
   apply (simple_comment_line_spec x (H x Hx)).
 Qed.
 
-Lemma simple_entry_wf e : simple_entry e = true -> wf_entry e = true.
+Lemma plain_entry_wf e : plain_entry e = true -> wf_entry e = true.
 Proof.
-  destruct e as [id [p|] attrs [|]|id p attrs [|]|c|c|c|]; try discriminate; cbn [simple_entry wf_entry]; intros H.
+  destruct e as [id [p|] attrs [|]|id p attrs [|]|c|c|c|]; try discriminate; cbn [plain_entry wf_entry]; intros H.
   4-6: apply simple_comment_wf, H.
   all: apply andb_prop in H as [H Hattrs]; apply andb_prop in H as [Hid Hp];
     rewrite Hid, (simple_attributes_wf attrs Hattrs), ?(simple_pattern_wf _ Hp), ?Hp; reflexivity.
+Qed.
+
+Lemma simple_entry_wf e : simple_entry e = true -> wf_entry e = true.
+Proof.
+  intros He. destruct (simple_entry_cases e He) as [[Hc Hp] | (e0 & ls & -> & Hmt & Hc & Hp & Hcm)];
+    [apply plain_entry_wf, Hp|].
+  pose proof (plain_entry_wf e0 Hp) as Hw. apply simple_comment_wf in Hcm.
+  destruct e0 as [id v a cm|id v a cm| | | |]; try discriminate Hmt; cbn [entry_comment] in Hc; subst cm;
+    cbn [attach wf_entry] in *; rewrite andb_true_r in Hw; rewrite Hw, Hcm; reflexivity.
 Qed.
 
 Theorem simple_resource_wf t : simple_resource t = true -> wf_resource t = true.
@@ -2337,12 +2577,21 @@ Proof.
   unfold join_attribute. cbn [attr_id attr_value]. rewrite (simple_pattern_join _ Hp). reflexivity.
 Qed.
 
-Lemma simple_entry_join e : simple_entry e = true -> join_entry e = e.
+Lemma plain_entry_join e : plain_entry e = true -> join_entry e = e.
 Proof.
-  destruct e as [id [p|] attrs [|]|id p attrs [|]|c|c|c|]; try discriminate; cbn [simple_entry join_entry option_map]; intros H;
+  destruct e as [id [p|] attrs [|]|id p attrs [|]|c|c|c|]; try discriminate; cbn [plain_entry join_entry option_map]; intros H;
     try reflexivity;
     apply andb_prop in H as [H Hattrs]; apply andb_prop in H as [Hid Hp];
     rewrite (simple_attributes_join attrs Hattrs), ?(simple_pattern_join _ Hp); reflexivity.
+Qed.
+
+Lemma simple_entry_join e : simple_entry e = true -> join_entry e = e.
+Proof.
+  intros He. destruct (simple_entry_cases e He) as [[Hc Hp] | (e0 & ls & -> & Hmt & Hc & Hp & Hcm)];
+    [apply plain_entry_join, Hp|].
+  pose proof (plain_entry_join e0 Hp) as Hj.
+  destruct e0 as [id v a cm|id v a cm| | | |]; try discriminate Hmt; cbn [entry_comment] in Hc; subst cm;
+    cbn [attach join_entry] in *; injection Hj as -> ->; reflexivity.
 Qed.
 
 Theorem simple_resource_join t : simple_resource t = true -> map join_entry t = t.
